@@ -137,6 +137,58 @@ def gen_art():
         raise ExtractError('ANSI_FONTS not found')
     out.append(f'def ansiFonts : Nat := {int(m.group(1))}\n')
 
+    # the ANSI writer's line splitting (push_result): the bytes written before / after `last_line_break` is taken, and the
+    # test that triggers it; the font switch `ESC [ 0 ; n SP D`; the first font slot whose font is sent with the file;
+    # the guard against output that starts with the UTF-8 indicator
+    m = re.search(r'fn push_result\(&mut self, result: &mut Vec<u8>\) \{\s*if self\.output\.len\(\) \+ result\.len\(\) - self\.last_line_break > '
+                  r'self\.max_output_line_length \{(.*?)\}\s*self\.output\.append\(result\);\s*result\.clear\(\);\s*\}', ansi_w, re.S)
+    if not m:
+        raise ExtractError('push_result: line-length test / shape not found')
+    pre, post, seen_llb = [], [], False
+    for st in [t.strip() for t in m.group(1).split(';') if t.strip()]:
+        m1 = re.fullmatch(r'self\.output\.extend_from_slice\(b"([^"]*)"\)', st)
+        m2 = re.fullmatch(r'self\.output\.push\((\d+)\)', st)
+        if m1:
+            (post if seen_llb else pre).extend(_bytes_lit(m1.group(1)))
+        elif m2:
+            (post if seen_llb else pre).append(int(m2.group(1)))
+        elif st == 'self.last_line_break = self.output.len()' and not seen_llb:
+            seen_llb = True
+        else:
+            raise ExtractError('push_result: unexpected statement ' + st)
+    if not seen_llb:
+        raise ExtractError('push_result: last_line_break assignment not found')
+    out.append(lean_list('ansiSplitPre', pre))
+    out.append(lean_list('ansiSplitPost', post))
+    if not re.search(r'let max_output_line_length = options\.output_line_length\.unwrap_or\(usize::MAX\);', ansi_w):
+        raise ExtractError('max_output_line_length default not found')
+    if len(re.findall(r'self\.last_line_break = result\.len\(\);', ansi_w)) != 2:
+        raise ExtractError('generate: last_line_break = result.len() sites changed')
+    m = re.search(r'if cur_font_page != cell\.font_page && !self\.options\.modern_terminal_output \{\s*cur_font_page = cell\.font_page;\s*'
+                  r'result\.extend_from_slice\(b"([^"]*)"\);\s*result\.extend_from_slice\(cur_font_page\.to_string\(\)\.as_bytes\(\)\);\s*'
+                  r'result\.extend_from_slice\(b"([^"]*)"\);\s*self\.push_result\(&mut result\);', ansi_w)
+    if not m:
+        raise ExtractError('generate: font switch not found')
+    out.append(lean_list('ansiFontSeqHead', _bytes_lit(m.group(1))))
+    out.append(lean_list('ansiFontSeqTail', _bytes_lit(m.group(2))))
+    m = re.search(r'for font_slot in used_fonts \{\s*if font_slot >= (\d+) \{', ansi_w)
+    if not m:
+        raise ExtractError('generate: font upload threshold not found')
+    out.append(f'def ansiFontUploadMin : Nat := {int(m.group(1))}\n')
+    m = re.search(r'if !options\.modern_terminal_output && result\.starts_with\(&\[([^\]]*)\]\) \{[^}]*?result\.splice\(0\.\.0, \*b"([^"]*)"\);', ansi_w, re.S)
+    if not m:
+        raise ExtractError('to_bytes: guard against a leading UTF-8 indicator not found')
+    out.append(lean_list('ansiBomBytes', [_int(x) for x in m.group(1).split(',') if x.strip()]))
+    out.append(lean_list('ansiBomGuard', _bytes_lit(m.group(2))))
+    m = re.search(r'if data\.starts_with\(&\[([^\]]*)\]\) \{\s*if let Ok\(result\) = String::from_utf8\(data\.to_vec\(\)\)', fm)
+    if not m:
+        raise ExtractError('convert_ansi_to_utf8: BOM test not found')
+    out.append(lean_list('loaderBomBytes', [_int(x) for x in m.group(1).split(',') if x.strip()]))
+    m = re.search(r'if let Some\(skip_lines\) = &self\.options\.skip_lines \{\s*if skip_lines\.contains\(&\(y as usize\)\) \{\s*result\.push\(line\);\s*continue;', ansi_w)
+    m2 = re.search(r'if let Some\(skip_lines\) = &self\.options\.skip_lines \{\s*if skip_lines\.contains\(&y\) \{\s*continue;', ansi_w)
+    if not (m and m2):
+        raise ExtractError('skip_lines handling in generate_cells / generate not found')
+
     # load sizes: Buffer::new((w, h)) in each load_buffer
     for nm, path in [('Ansi', 'src/formats/ansi.rs'), ('Ascii', 'src/formats/ascii.rs'), ('Pcb', 'src/formats/pcboard.rs'),
                      ('Avatar', 'src/formats/avatar.rs'), ('Ctrla', 'src/formats/ctrla.rs'), ('Renegade', 'src/formats/renegade.rs'),
@@ -169,6 +221,12 @@ def gen_art():
         ('ansi_generate_cells', 'src/formats/ansi.rs', r'fn generate_cells<.*?\n    \}\n'),
         ('ansi_generate', 'src/formats/ansi.rs', r'pub fn generate<.*?\n    \}\n'),
         ('ansi_push_result', 'src/formats/ansi.rs', r'fn push_result\(.*?\n    \}\n'),
+        ('ansi_font_map', 'src/formats/ansi.rs', r'fn generate_ansi_font_map\(.*?\n    \}\n'),
+        ('ansi_to_bytes', 'src/formats/ansi.rs', r'fn to_bytes\(&self, buf: &crate::Buffer.*?\n    \}\n'),
+        ('ansi_font_selection', 'src/parsers/ansi/ansi_commands.rs', r'pub\(crate\) fn font_selection\(.*?\n    \}\n'),
+        ('ansi_save_cursor', 'src/parsers/ansi/ansi_commands.rs', r'pub\(crate\) fn save_cursor_position\(.*?\n    \}\n'),
+        ('ansi_restore_cursor', 'src/parsers/ansi/ansi_commands.rs', r'pub\(crate\) fn restore_cursor_position\(.*?\n    \}\n'),
+        ('convert_ansi_to_utf8', 'src/formats/mod.rs', r'pub fn convert_ansi_to_utf8\(.*?\n\}\n'),
         ('parse_with_parser', 'src/formats/mod.rs', r'pub fn parse_with_parser\(.*?\n\}\n'),
         ('crop_loaded_file', 'src/formats/mod.rs', r'pub\(crate\) fn crop_loaded_file\(.*?\n\}\n'),
         ('print_char', 'src/parsers/mod.rs', r'pub fn print_char\(&mut self, layer.*?\n    \}\n'),
